@@ -532,6 +532,111 @@ func runC07(c *Ctx) {
 		}
 	}
 
+	// ---------------------------------------------------------------- R12
+	c.rule("R12", "closing the lazy wrapper closes what it holds: after the closed flag is set every path cancels the dial (still dialing) or closes the established connection, unless there is none", 1)
+	if lcClose := c.fn(relTransport, "lazyDnsConn", "Close"); lcClose != nil {
+		LD := T + "lazyDnsConn."
+		var flagStore ssa.Instruction
+		eachInstr(lcClose, func(in ssa.Instruction) {
+			if st, ok := in.(*ssa.Store); ok {
+				if k, _ := fieldKey(st.Addr); k == LD+"closed" {
+					if b, isB := constBool(st.Val); isB && b {
+						flagStore = in
+					}
+				}
+			}
+		})
+		if flagStore == nil {
+			c.anchorMissing("lc.closed = true in lazyDnsConn.Close")
+		} else {
+			isRelease := func(x ssa.Instruction) bool {
+				ci, ok := x.(ssa.CallInstruction)
+				if !ok {
+					return false
+				}
+				if cc, ok := x.(*ssa.Call); ok && cc.Call.IsInvoke() && cc.Call.Method.Name() == "Close" {
+					if k, _ := loadedField(cc.Call.Value); k == LD+"c" {
+						return true
+					}
+				}
+				if callName(ci) == "builtin:close" {
+					if k, _ := loadedField(ci.Common().Args[0]); k == LD+"dialFinished" {
+						return true
+					}
+				}
+				return false
+			}
+			// walk the CFG from the flag store; an edge that establishes lc.c == nil needs no close; a release ends a path
+			leak := false
+			seen := map[*ssa.BasicBlock]bool{}
+			var walk func(b *ssa.BasicBlock, from int)
+			walk = func(b *ssa.BasicBlock, from int) {
+				for i := from; i < len(b.Instrs); i++ {
+					x := b.Instrs[i]
+					if isRelease(x) {
+						return
+					}
+					if isExit(x) {
+						leak = true
+						return
+					}
+				}
+				iff, _ := terminator(b).(*ssa.If)
+				for si, succ := range b.Succs {
+					if iff != nil {
+						g := guard{Cond: iff.Cond, Truth: si == 0, If: iff}
+						if cm, ok := g.asCmp(); ok && cm.Op == token.EQL && isNilConst(cm.Y) {
+							if k, _ := loadedField(cm.X); k == LD+"c" {
+								continue // no connection on this edge
+							}
+						}
+					}
+					if !seen[succ] {
+						seen[succ] = true
+						walk(succ, 0)
+					}
+				}
+			}
+			walk(flagStore.Block(), idxInBlock(flagStore)+1)
+			c.check(!leak, "close-releases-held@lazyDnsConn", instrPos(flagStore), "every path closes the connection, cancels the dial, or has no connection",
+				"lazyDnsConn.Close can return without closing an established connection (a path that neither calls lc.c.Close() nor tests lc.c == nil): transport Close leaves that socket and its reader goroutine alive and pending calls are not woken")
+		}
+	}
+
+	// ---------------------------------------------------------------- R13
+	c.rule("R13", "dial closures of the upstreams hand their context to every blocking network step (no context-less handshake or dial that Close / a timeout cannot interrupt)", 1)
+	{
+		deny := map[string]bool{
+			"(*crypto/tls.Conn).Handshake": true, "net.Dial": true, "net.DialTimeout": true, "(*net.Dialer).Dial": true,
+			"crypto/tls.Dial": true, "(*crypto/tls.Dialer).Dial": true, "net.DialUDP": false, "net.DialTCP": true,
+		}
+		n := 0
+		bad := ""
+		var badPos token.Pos
+		for _, f := range p.funcsIn(relUpstream) {
+			fn := f
+			eachInstr(f, func(in ssa.Instruction) {
+				ci, ok := in.(ssa.CallInstruction)
+				if !ok {
+					return
+				}
+				cn := callName(ci)
+				if strings.HasSuffix(cn, "Context") || strings.Contains(cn, "HandshakeContext") || strings.Contains(cn, "DialContext") {
+					n++
+				}
+				if deny[cn] && bad == "" {
+					bad, badPos = cn+" in "+funcName(fn), instrPos(in)
+				}
+			})
+		}
+		c.see(p.funcsIn(relUpstream)...)
+		if bad != "" {
+			c.fail("ctx-aware-network-steps@upstream", badPos, "%s ignores the dial context: a server that accepts the connection and then stalls keeps the dial (and every call queued on it) blocked beyond the dial timeout, and Close cannot interrupt it", bad)
+		} else {
+			c.check(n > 0, "ctx-aware-network-steps@upstream", 0, fmt.Sprintf("%d context-taking network steps, no context-less dial or handshake", n), "no context-taking network step found in pkg/upstream")
+		}
+	}
+
 	// ---------------------------------------------------------------- R7
 	c.rule("R7", "bounded deadlines are armed before waiting for the peer; the waiting flag is maintained", 6)
 	deadlineConst := func(v ssa.Value) (string, bool) {
@@ -572,14 +677,48 @@ func runC07(c *Ctx) {
 			}
 			n++
 			desc, okD := deadlineConst(ci.Call.Args[0])
-			// guarded by CompareAndSwap(false, true) on waitingResp
+			// guarded by CompareAndSwap(false, true) on waitingResp — and by nothing else than "the write succeeded":
+			// the flag is set and the deadline armed for every kind of connection, on every path to the wait
 			cas := false
+			var casCall ssa.Instruction
+			var firstWrite ssa.Instruction
+			eachInstr(ex, func(y ssa.Instruction) {
+				if cl, ok := y.(*ssa.Call); ok && firstWrite == nil {
+					if sc := staticCallee(cl); sc != nil && sc.Name() == "writeQuery" && instrDominates(y, in) {
+						firstWrite = y
+					}
+				}
+			})
 			for _, g := range guardsOfInstr(in) {
+				if firstWrite != nil && !instrDominates(firstWrite, g.If) {
+					continue // established before the query was written
+				}
 				v, truth := g.asBool()
 				if cl, ok := v.(*ssa.Call); ok && truth && callName(cl) == "(*sync/atomic.Bool).CompareAndSwap" {
 					if k, _ := fieldKey(cl.Call.Args[0]); k == T+"TraditionalDnsConn.waitingResp" {
 						cas = true
+						casCall = cl
 					}
+					continue
+				}
+				if cm, ok := g.asCmp(); ok && isNilConst(cm.Y) && cm.X.Type().String() == "error" {
+					continue
+				}
+				cas = false
+				desc += " [extra condition: " + guardText(g) + "]"
+				break
+			}
+			if cas && casCall != nil {
+				// the CAS itself runs on every path from the write to the wait (no short-circuit in front of it)
+				var wait ssa.Instruction
+				eachInstr(ex, func(y ssa.Instruction) {
+					if sel, ok := y.(*ssa.Select); ok && sel.Blocking {
+						wait = y
+					}
+				})
+				if wait == nil || !instrDominates(casCall, wait) {
+					cas = false
+					desc += " [the flag test does not run on every path to the wait]"
 				}
 			}
 			c.check(okD && cas, "waiting-reply-deadline@exchange", instrPos(in), "after the send a constant deadline ("+desc+") is armed once per waiting period",
@@ -590,17 +729,87 @@ func runC07(c *Ctx) {
 		}
 	}
 	if rl := c.fn(relTransport, "TraditionalDnsConn", "readLoop"); rl != nil {
-		cleared := false
+		// after every successful read the flag is rewritten: false, or "other waiters remain" (a count derived from
+		// queueLen() compared > 0, D11) — never left as it was, never set true unconditionally
+		var stores []ssa.Instruction
+		okVal := true
 		eachInstr(rl, func(in ssa.Instruction) {
-			if ci, ok := in.(*ssa.Call); ok && callName(ci) == "(*sync/atomic.Bool).Store" {
-				if k, _ := fieldKey(ci.Call.Args[0]); k == T+"TraditionalDnsConn.waitingResp" {
-					if b, ok := constBool(ci.Call.Args[1]); ok && !b {
-						cleared = true
-					}
+			ci, ok := in.(*ssa.Call)
+			if !ok || callName(ci) != "(*sync/atomic.Bool).Store" {
+				return
+			}
+			if k, _ := fieldKey(ci.Call.Args[0]); k != T+"TraditionalDnsConn.waitingResp" {
+				return
+			}
+			stores = append(stores, in)
+			v := ci.Call.Args[1]
+			if b, ok := constBool(v); ok {
+				if b {
+					okVal = false
+				}
+				return
+			}
+			bo, ok := v.(*ssa.BinOp)
+			if !ok || bo.Op != token.GTR {
+				okVal = false
+				return
+			}
+			if n, ok := constInt(bo.Y); !ok || n != 0 {
+				okVal = false
+				return
+			}
+			fromLen := false
+			for _, lf := range expandCases(bo.X, nil, 0) {
+				x := lf.val
+				if sub, ok := x.(*ssa.BinOp); ok && sub.Op == token.SUB {
+					x = sub.X
+				}
+				if cl, ok := x.(*ssa.Call); ok && strings.HasSuffix(callName(cl), ".queueLen") {
+					fromLen = true
+				} else {
+					fromLen = false
+					break
 				}
 			}
+			if !fromLen {
+				okVal = false
+			}
 		})
-		c.check(cleared, "waiting-flag-cleared@readLoop", rl.Pos(), "every successful read clears the waiting flag", "the reader never clears the waiting flag: after the first reply no exchange arms the short deadline again and a dead connection is only detected after the idle timeout")
+		tracks := false
+		for _, st := range stores {
+			if _, isC := constBool(st.(*ssa.Call).Call.Args[1]); !isC {
+				tracks = true
+			}
+		}
+		c.check(tracks && okVal, "waiting-flag-tracks-waiters@readLoop", rl.Pos(), "after a reply the flag stays set while other queries are still waiting (D11)",
+			"after a reply the reader clears the waiting flag although other queries may still be waiting: a query that is never answered keeps only the idle deadline and, with an unbounded context, blocks for the whole idle timeout (5 min for UDP upstreams) instead of ~10 s")
+		everyRead := len(stores) > 0
+		var readIn ssa.Instruction
+		eachInstr(rl, func(in ssa.Instruction) {
+			if ci, ok := in.(*ssa.Call); ok {
+				if sc := staticCallee(ci); sc != nil && ioFns[sc] {
+					readIn = in
+				}
+			}
+			if isDirectIO(in) {
+				readIn = in
+			}
+		})
+		if readIn != nil {
+			isStore := func(x ssa.Instruction) bool {
+				for _, s2 := range stores {
+					if x == s2 {
+						return true
+					}
+				}
+				return isExit(x)
+			}
+			if _, skip := reachAvoiding(readIn, func(x ssa.Instruction) bool { return x == readIn }, isStore); skip {
+				everyRead = false
+			}
+		}
+		c.check(everyRead && okVal, "waiting-flag-cleared@readLoop", rl.Pos(), "every successful read rewrites the waiting flag (false, or 'other waiters remain')",
+			"the reader does not rewrite the waiting flag after every read with false / 'other queries are still waiting': either no exchange arms the short deadline again, or an unanswered query keeps only the idle deadline")
 	}
 	if rl := c.fn(relTransport, "TraditionalDnsConn", "readLoop"); rl != nil {
 		// two writers of the read deadline (exchange: short, reader: idle): the reader must not leave the idle
